@@ -555,7 +555,7 @@ func (u *Unit) specPreamble(extraAxioms []string) string {
 				if body.T.K == KBV && sf.Result.K == KInt {
 					body = u.toInt(body)
 				}
-				if sf.Opaque {
+				if sf.Opaque && !u.concrete {
 					var srt, as []string
 					for i, s := range sf.ParamSorts {
 						srt = append(srt, u.tc.smt(s))
